@@ -13,7 +13,8 @@ RULE = ('70% E1 histories (pure scheduler API) and 30% E2 histories (Master + Zk
         'finite limit at a non-server level, >=2 placed instances of that '
         'affinity and >=1 eviction in the history. distinct = canonical JSON.'
         " Since rounds 5-7: counters are also compared with the instances' own view (how many instances say they sit below a node); dense (tight, frequent) limits; allocation moves; buckets leaving the cell; bounce + re-parent into a rack at its limit; two same-shape arrivals placed through eviction in one cycle on a filled cell."
-        ' Since round 8: leases, renewals and clock advances in the limit histories (renewal-failure restore path).')
+        ' Since round 8: leases, renewals and clock advances in the limit histories (renewal-failure restore path).'
+        ' Since round 10: racks re-defined under another pod (rebucket).')
 ASSUMPTIONS = [
     'instances of one affinity share their limits (drawn per affinity name)',
     'virtual clock replaces treadmill.scheduler.time',
@@ -31,7 +32,7 @@ PROFILE = {
 }
 
 
-E2_PROFILE = {'max_pods': 2, 'max_racks': 3, 'weights': {'app': 14, 'rmsrv': 2, 'srv': 2, 'prio': 2, 'reparent': 3, 'cellev': 3, 'cellrm': 3, 'allocs': 2, 'restart': 2, 'resize': 2, 'bouncemove': 4, 'rebucket': 3, 'renew': 2, 'adv': 2, 'tickreboots': 1}, 'force': ['bouncemove', 'rebucket'], 'lease': True, 'dense_limits': True}
+E2_PROFILE = {'max_pods': 2, 'max_racks': 3, 'weights': {'app': 14, 'rmsrv': 2, 'srv': 2, 'prio': 2, 'reparent': 3, 'cellev': 3, 'cellrm': 3, 'allocs': 2, 'restart': 2, 'resize': 2, 'bouncemove': 4, 'rebucket': 2, 'rebucketwork': 4, 'renew': 2, 'adv': 2, 'tickreboots': 1}, 'force': ['bouncemove', 'rebucketwork'], 'lease': True, 'min_servers': 2, 'dense_limits': True}
 
 
 def strategy(tier):
